@@ -199,6 +199,7 @@ def build_experiment(case, limit):
 
     def _generate(params):
         ctl.hit('generate')
+        ctl.genparams = repr(sorted(params.items(), key=repr))      # what this run's network is generated from
         g = orig__generate(params)
         ctl.generated += 1
         return g
@@ -247,6 +248,7 @@ def one_run(dyn, ctl, leaves, proto, gen, case, j, run):
     def started(params_):
         ctl.calls.append('started')
         obs['started'] = snapshot(dyn, leaves, proto, params_)
+        obs['started']['generator_params'] = getattr(ctl, 'genparams', None)
     dyn.simulationStarted = started
 
     def ended(res):
@@ -326,6 +328,9 @@ class H(Harness):
                     params['epydemic.percolate.T'] = rnd.choice([0.25, 0.5, 0.75, 1.0])
                 else:
                     params.update(compart.params_for(ty, pv))
+            # parameter points whose KEY SETS differ from run to run (a network family given now by one, now by another parameter)
+            if rnd.random() < 0.5:
+                params[rnd.choice(['phi', 'kmean', 'N', 'MperNode'])] = rnd.choice([0.125, 2, 5, 0.5])
             run['params'] = params
         return run
 
